@@ -167,8 +167,8 @@ func (r *Router) handleHTTPRequest(ctx *Context) {
 		ctx.Set(CTXCurrentRouteName, route.name)
 		ctx.Set(CTXCurrentRoutePath, path)
 
-		// append main handler to last
-		handlers = append(route.handlers, route.handler)
+		// append main handler to last. Notice: must use a new slice, route.handlers is shared by all requests
+		handlers = combineHandlers(route.handlers, HandlersChain{route.handler})
 	} else if len(allowed) > 0 { // method not allowed
 		if len(r.noAllowed) == 0 {
 			r.noAllowed = HandlersChain{internal405Handler}
@@ -185,9 +185,9 @@ func (r *Router) handleHTTPRequest(ctx *Context) {
 		handlers = r.noRoute
 	}
 
-	// has global middleware handlers
+	// has global middleware handlers. Notice: must use a new slice, r.handlers is shared by all requests
 	if len(r.handlers) > 0 {
-		handlers = append(r.handlers, handlers...)
+		handlers = combineHandlers(r.handlers, handlers)
 	}
 
 	ctx.SetHandlers(handlers)
